@@ -213,7 +213,10 @@ def desugarFrom : Grammar → Table → Table
   | [], T => T
   | rl :: rest, T =>
     let (alts, T1) := desugarAlts rl.body T
-    desugarFrom rest (T1 ++ [{ name := .user rl.name, pub := rl.pub, alts }])
+    -- `hash_table_enter` keeps the first definition of a name; the internal rules of the body
+    -- of a repeated definition have been entered all the same
+    if T1.defined (.user rl.name) then desugarFrom rest T1
+    else desugarFrom rest (T1 ++ [{ name := .user rl.name, pub := rl.pub, alts }])
 
 def desugar (g : Grammar) : Table := desugarFrom g []
 
@@ -440,6 +443,15 @@ def xRule (T : Table) : Nat → List RName → Nat → RName → XSt → Option 
 /-- `jsgf_build_fsg_raw` before the links are handed to `fsg_model`: `none` = refused -/
 def expandTop (T : Table) (top : RName) : Option XSt :=
   if T.defined top then xRule T (T.length + 1) [] 0 top {} else none
+
+/-- `jsgf_build_fsg_internal` (after D36) refuses a rule reference / `<NULL>` whose weight would
+become a null transition with probability above one (only weights of atoms that are not first in
+their alternative can be: the first ones are normalised) -/
+def XSt.weightsOk (st : XSt) : Bool := st.links.all fun l => l.label.isSome || decide (l.wt ≤ 1)
+
+/-- the raw FSG the compiler builds, `none` = refused -/
+def buildRaw (T : Table) (top : RName) : Option XSt :=
+  (expandTop T top).bind fun st => if st.weightsOk then some st else none
 
 /-- the links as an ε-NFA (start = entry of the top rule = 0, final = its exit = 1) -/
 def XSt.toNfa (st : XSt) : Nfa :=
